@@ -1,5 +1,212 @@
-/- C05 — theorems under construction. -/
-import BEI.Model.App
+/-
+  C05 — A consuming action hides exactly its contributing inputs from later actions (same and other contexts,
+  including bindings that require a modifier key it used); nothing is hidden otherwise; nothing stays hidden in the
+  next frame; earlier actions are never affected.
+-/
+import BEI.Proofs.Update
 namespace BEI.Props.C05
-theorem placeholder_true : True := trivial
+open BEI
+
+/-- modifier keys an input requires -/
+def modsOf : Input → ModKeys
+  | .key _ m => m | .mbtn _ m => m | .motion m => m | .wheel m => m | .padBtn _ => {} | .padAxis _ => {}
+
+/-- same physical source (for gamepad inputs: read through the same gamepad setting) -/
+def sameSource : Input → Input → Bool
+  | .key k _, .key k' _ => k == k'
+  | .mbtn b _, .mbtn b' _ => b == b'
+  | .motion _, .motion _ => true
+  | .wheel _, .wheel _ => true
+  | .padBtn b, .padBtn b' => b == b'
+  | .padAxis x, .padAxis x' => x == x'
+  | _, _ => false
+
+/-- `i` hides `j`: same source, or `j` requires a modifier key `i` used -/
+def hides (i j : Input) : Bool := sameSource i j || (modsOf i).intersects (modsOf j)
+
+/-- the inactive reading of an input -/
+def inactive : Input → Value
+  | .key _ _ => .bool false | .mbtn _ _ => .bool false | .motion _ => .a2 0 0 | .wheel _ => .a2 0 0
+  | .padBtn _ => .bool false | .padAxis _ => .a1 0
+
+/-- `j` is masked by the consumed set `c` when read through device `dev` -/
+def hiddenBy (c : Consumed) (dev : Device) : Input → Bool
+  | .key k m => c.keys.contains k || c.mods.intersects m
+  | .mbtn b m => c.mouseButtons.contains b || c.mods.intersects m
+  | .motion m => c.motion || c.mods.intersects m
+  | .wheel m => c.wheel || c.mods.intersects m
+  | .padBtn b => c.padButtons.contains (dev, b)
+  | .padAxis x => c.padAxes.contains (dev, x)
+
+/-- a masked input reads as inactive -/
+theorem hidden_reads_inactive (r : Reader) (j : Input) (h : hiddenBy r.consumed r.device j = true) :
+    r.value j = inactive j := by
+  cases j <;> simp_all [hiddenBy, Reader.value, Reader.modKeysPressed, inactive] <;>
+    (rcases h with h | h <;> simp [h])
+
+theorem intersects_union_left (a b c : ModKeys) (h : a.intersects c = true) : (a.union b).intersects c = true := by
+  simp only [ModKeys.intersects, ModKeys.union, Bool.or_eq_true, Bool.and_eq_true] at *
+  grind
+
+theorem intersects_union_right (a b c : ModKeys) (h : b.intersects c = true) : (a.union b).intersects c = true := by
+  simp only [ModKeys.intersects, ModKeys.union, Bool.or_eq_true, Bool.and_eq_true] at *
+  grind
+
+/-- (1a) consuming `i` masks every input it hides (read through the same gamepad setting) -/
+theorem consume_hides (r : Reader) (i j : Input) (h : hides i j = true) :
+    hiddenBy (r.consume i).consumed (r.consume i).device j = true := by
+  cases i <;> cases j <;>
+    simp_all [hides, sameSource, modsOf, hiddenBy, Reader.consume, ModKeys.intersects, ModKeys.union] <;>
+    grind
+
+/-- (1b) consuming never unmasks anything (the consumed set only grows within a frame) -/
+theorem consume_monotone (r : Reader) (i j : Input) (dev : Device) (h : hiddenBy r.consumed dev j = true) :
+    hiddenBy (r.consume i).consumed dev j = true := by
+  cases i <;> cases j <;>
+    simp_all [hiddenBy, Reader.consume, ModKeys.intersects, ModKeys.union] <;>
+    grind
+
+theorem intersects_union_of_not (a b c : ModKeys) (h : b.intersects c = false) :
+    (a.union b).intersects c = a.intersects c := by
+  cases a; cases b; cases c
+  simp only [ModKeys.intersects, ModKeys.union] at *
+  grind
+
+theorem contains_cons_ne {α : Type} [BEq α] [LawfulBEq α] (l : List α) (x y : α) (h : (x == y) = false) :
+    (x :: l).contains y = l.contains y := by
+  simp [List.contains_cons]
+  intro hxy; subst hxy; simp at h
+
+/-- (1c) consuming `i` changes nothing for an input it does not hide -/
+theorem consume_keeps (r : Reader) (i j : Input) (h : hides i j = false) :
+    (r.consume i).value j = r.value j := by
+  simp only [hides, Bool.or_eq_false_iff] at h
+  obtain ⟨hs, hm⟩ := h
+  have hu := fun (m' : ModKeys) (hm' : (modsOf i).intersects m' = false) =>
+    intersects_union_of_not r.consumed.mods (modsOf i) m' hm'
+  cases i <;> cases j <;>
+    simp only [sameSource, modsOf, beq_eq_false_iff_ne, ne_eq, Bool.true_eq_false, Bool.false_eq_true] at hs hm hu ⊢ <;>
+    simp only [Reader.consume, Reader.value, Reader.modKeysPressed, Reader.modsDown, Reader.findPad] <;>
+    (try simp only [hu _ hm]) <;>
+    (try rfl) <;>
+    (try (rw [contains_cons_ne _ _ _ (by simpa using hs)]))
+  all_goals (have hs' := Ne.symm hs; simp [List.contains_cons, hs'])
+
+/-- a gamepad input consumed under one gamepad setting is not hidden from a context with a different setting -/
+theorem consume_pad_other_device (r : Reader) (b : Nat) (d' : Device) (hd : d' ≠ r.device) :
+    ((r.consume (.padBtn b)).setGamepad d').value (.padBtn b) = (r.setGamepad d').value (.padBtn b) := by
+  have hne : ¬ (d' = r.device) := hd
+  simp [Reader.consume, Reader.setGamepad, Reader.value, Reader.findPad, List.contains_cons, hne]
+
+theorem foldl_consume_monotone (is : List Input) :
+    ∀ (r : Reader) (j : Input) (dev : Device), hiddenBy r.consumed dev j = true →
+      hiddenBy (is.foldl Reader.consume r).consumed dev j = true := by
+  induction is with
+  | nil => intro r j dev h; exact h
+  | cons i is ih => intro r j dev h; exact ih _ _ _ (consume_monotone r i j dev h)
+
+theorem consume_device (r : Reader) (i : Input) : (r.consume i).device = r.device := by cases i <;> rfl
+
+theorem foldl_consume_device (is : List Input) : ∀ (r : Reader), (is.foldl Reader.consume r).device = r.device := by
+  induction is with
+  | nil => intro r; rfl
+  | cons i is ih => intro r; simp only [List.foldl_cons]; rw [ih, consume_device]
+
+theorem foldl_consume_hides (is : List Input) :
+    ∀ (r : Reader) (i j : Input), i ∈ is → hides i j = true →
+      hiddenBy (is.foldl Reader.consume r).consumed r.device j = true := by
+  induction is with
+  | nil => intro r i j hi; simp at hi
+  | cons x xs ih =>
+    intro r i j hi hh
+    simp only [List.foldl_cons]
+    rcases List.mem_cons.mp hi with rfl | hi
+    · have := consume_hides r i j hh
+      rw [consume_device] at this
+      exact foldl_consume_monotone xs _ _ _ this
+    · have := ih (r.consume x) i j hi hh
+      rwa [consume_device] at this
+
+theorem foldl_consume_keeps (is : List Input) :
+    ∀ (r : Reader) (j : Input), (∀ i ∈ is, hides i j = false) → (is.foldl Reader.consume r).value j = r.value j := by
+  induction is with
+  | nil => intro r j _; rfl
+  | cons x xs ih =>
+    intro r j h
+    simp only [List.foldl_cons]
+    rw [ih _ _ (fun i hi => h i (by simp [hi])), consume_keeps r x j (h x (by simp))]
+
+/-- (2) what one action consumes: if (and only if) it consumes input and ends the frame in a state other than None,
+    exactly the inputs that contributed to it (C04); afterwards every input hidden by one of them reads inactive
+    through the same reader, and every other input reads exactly as before. -/
+theorem update_consumes (ab : ActionBind) (r : Reader) (av : ActionsView) (t : Tick) (es : List Nat)
+    (o : ActionBind.Out) (h : ab.update r av t es = some o) :
+    ∃ d, o.actions.get? ab.action = some d ∧
+      o.consumed = (if ab.consume && d.state != .none
+                    then (contributing (evalAll r av t ab.bindings)).map (·.input) else [])
+      ∧ o.reader = o.consumed.foldl Reader.consume r
+      ∧ (∀ i ∈ o.consumed, ∀ j, hides i j = true → o.reader.value j = inactive j)
+      ∧ (∀ j, (∀ i ∈ o.consumed, hides i j = false) → o.reader.value j = r.value j) := by
+  obtain ⟨old, d, hold, hd, hchar⟩ := update_char ab r av t es o h
+  obtain ⟨hdv, _, hcons, hreader, _⟩ := hchar
+  refine ⟨d, hd, ?_, hreader, ?_, ?_⟩
+  · rw [hcons, hdv]; simp [ActionData.update]
+  · intro i hi j hh
+    apply hidden_reads_inactive
+    rw [hreader, foldl_consume_device]
+    exact foldl_consume_hides _ r i j hi hh
+  · intro j hj
+    rw [hreader]
+    exact foldl_consume_keeps _ r j hj
+
+/-- nothing is hidden when the action's state is None or the action does not consume -/
+theorem nothing_consumed (ab : ActionBind) (r : Reader) (av : ActionsView) (t : Tick) (es : List Nat)
+    (o : ActionBind.Out) (h : ab.update r av t es = some o) (d : ActionData)
+    (hd : o.actions.get? ab.action = some d) (hn : ab.consume = false ∨ d.state = .none) : o.reader = r := by
+  obtain ⟨d', hd', hcons, hreader, _⟩ := update_consumes ab r av t es o h
+  rw [hd] at hd'; cases hd'
+  rw [hreader, hcons]
+  rcases hn with hn | hn <;> simp [hn]
+
+/-- (3) nothing stays hidden in the next frame: `update_state` empties the consumed set (only the UI mouse flag is
+    recomputed, see C16) -/
+theorem reset_unhides (r : Reader) (dev : Device) (j : Input) : hiddenBy r.updateState.consumed dev j = false := by
+  cases j <;> simp [Reader.updateState, hiddenBy, ModKeys.intersects]
+
+/-- (4) masking persists for everything evaluated later in the frame: every later `ActionBind::update` only adds to
+    the consumed set (so an input hidden once stays hidden until the reset), and switching the gamepad selection at
+    the start of a context does not touch the set -/
+theorem later_updates_keep_hidden (ab : ActionBind) (r : Reader) (av : ActionsView) (t : Tick) (es : List Nat)
+    (o : ActionBind.Out) (h : ab.update r av t es = some o) (j : Input) (dev : Device)
+    (hj : hiddenBy r.consumed dev j = true) : hiddenBy o.reader.consumed dev j = true := by
+  obtain ⟨_, _, _, hreader, _⟩ := update_consumes ab r av t es o h
+  rw [hreader]
+  exact foldl_consume_monotone _ r j dev hj
+
+theorem setGamepad_consumed (r : Reader) (d : Device) : (r.setGamepad d).consumed = r.consumed := rfl
+
+/-- (5) earlier actions are never affected: the result of an action depends only on the reader as it was at its turn —
+    running further actions afterwards cannot change what was already computed (the evaluation is a left fold) -/
+theorem earlier_unaffected (r : Reader) (av : ActionsView) (t : Tick) (es : List Nat) (ab : ActionBind)
+    (rest rest' : List ActionBind) :
+    (ContextInstance.loopActions r av t es (ab :: rest)).map (fun x => (x.1.head?.map (·.action), x.2.2.2.1.take (match ab.update r av t es with | some o => o.deliveries.length | none => 0)))
+    = (ContextInstance.loopActions r av t es (ab :: rest)).map (fun x => (x.1.head?.map (·.action), match ab.update r av t es with | some o => o.deliveries | none => [])) := by
+  simp only [ContextInstance.loopActions]
+  cases hab : ab.update r av t es with
+  | none => rfl
+  | some o =>
+    simp only
+    cases hr : ContextInstance.loopActions o.reader o.actions t es rest with
+    | none => rfl
+    | some x =>
+      obtain ⟨a, b, c, d, e⟩ := x
+      simp
+
+/-- non-vacuity: Ctrl+A consumed hides Ctrl+Shift+B (shares Ctrl) and A, but not plain B -/
+example :
+    let ctrl : ModKeys := { control := true }
+    let cs : ModKeys := { control := true, shift := true }
+    hides (.key 0 ctrl) (.key 1 cs) = true ∧ hides (.key 0 ctrl) (.key 0 {}) = true ∧ hides (.key 0 ctrl) (.key 1 {}) = false := by
+  decide
+
 end BEI.Props.C05
